@@ -1357,7 +1357,10 @@ Error CodeHolder::copy_section_data(void* dst, size_t dst_size, uint32_t section
     return make_error(Error::kInvalidArgument);
   }
 
-  memcpy(dst, section->data(), buffer_size);
+  // An empty section has no buffer: memcpy() must not be given a null source, not even for zero bytes.
+  if (buffer_size) {
+    memcpy(dst, section->data(), buffer_size);
+  }
 
   if (buffer_size < dst_size && Support::test(copy_flags, CopySectionFlags::kPadSectionBuffer)) {
     size_t padding_size = dst_size - buffer_size;
@@ -1383,7 +1386,9 @@ Error CodeHolder::copy_flattened_data(void* dst, size_t dst_size, CopySectionFla
 
     uint8_t* dst_target = static_cast<uint8_t*>(dst) + offset;
     size_t padding_size = 0;
-    memcpy(dst_target, section->data(), buffer_size);
+    if (buffer_size) {
+      memcpy(dst_target, section->data(), buffer_size);
+    }
 
     if (Support::test(copy_flags, CopySectionFlags::kPadSectionBuffer) && buffer_size < section->virtual_size()) {
       padding_size = Support::min<size_t>(dst_size - offset, size_t(section->virtual_size())) - buffer_size;
